@@ -35,6 +35,8 @@ def run(ctx):
     ctx.do(rule_newest)
     ctx.do(rule_navigation)
     ctx.do(rule_delegation)
+    from .hidden_state import rule_no_hidden_state
+    ctx.do(rule_no_hidden_state, "C18.history-independence")
 
 
 def rule_member_forward(ctx):
